@@ -909,6 +909,9 @@ def rule_converged_by_tolerance(ctx):
                 q = f"{c.name}.run:converged@{src_of(val)[:30]}"
                 if depends(val):
                     r.ok(q, sample={"driver": f"{c.name}.run", "converged from": src_of(val)[:50], "tolerances": sorted(tols)})
+                elif any(isinstance(y, ast.Call) and isinstance(y.func, ast.Attribute) and isinstance(y.func.value, ast.Name) and y.func.value.id == "self" for y in ast.walk(val)):
+                    # decided inside a helper method of the object (which may hold the tolerance itself): not judged here
+                    r.skip(q, f"convergence decided by `{src_of(val)[:40]}`, a method of the object")
                 else:
                     r.bad(Finding("converged-by-tolerance", f"{c.name}.run",
                                   f"`{src_of(a)[:60]}` declares convergence from a value that does not depend on any of {sorted(tols)}: no message change was compared with a "
